@@ -16,6 +16,7 @@ import (
 	"mellium.im/sasl"
 	"mellium.im/xmpp"
 	"mellium.im/xmpp/jid"
+	"mellium.im/xmpp/websocket"
 	"verif.sim/simrt"
 )
 
@@ -311,6 +312,107 @@ func c02Session(rc *RC, idx int, tag string, origin jid.JID, neg *c02Neg, plan c
 	return o
 }
 
+var c02ClearReWS = regexp.MustCompile(`^\s*<open [^>]*/>\s*(<starttls xmlns='urn:ietf:params:xml:ns:xmpp-tls'/>)?\s*(<close [^>]*/>)?\s*$`)
+
+// c02SessionWS: the same client over WebSocket framing (RFC 7395) on a connection that is not secure. The scripted server
+// never lets TLS happen (it answers <starttls/> with failure, garbage, white space, silence or a cut), and plays along in
+// clear text with whatever else the client sends: every outcome must be an error, and nothing but <open/> and the
+// STARTTLS request may have left the client.
+func c02SessionWS(rc *RC, idx int, tag string, origin jid.JID, feats []xmpp.StreamFeature, plan c02Plan, tee bool) c02Outcome {
+	var o c02Outcome
+	cc, sc := rc.Net.Pipe(fmt.Sprintf("wcli%d%s", idx, tag), fmt.Sprintf("wsrv%d%s", idx, tag))
+	ctx, cancel := context.WithTimeout(context.Background(), 20*time.Second)
+	defer func() { cancel(); cc.Close(); sc.Close() }()
+	var teeIn, teeOut bytes.Buffer
+	neg := websocket.Negotiator(func(*xmpp.Session, *xmpp.StreamConfig) xmpp.StreamConfig {
+		cfg := xmpp.StreamConfig{Features: feats}
+		if tee {
+			cfg.TeeIn, cfg.TeeOut = &teeIn, &teeOut
+		}
+		return cfg
+	})
+	var sess *xmpp.Session
+	sut := rc.Spawn("wsclient"+tag, func() {
+		sess, o.err = xmpp.NewSession(ctx, origin.Domain(), origin, cc, 0, neg)
+		o.done, o.finishedAt = true, rc.S.Now()
+	})
+	out := cc.Out()
+	srv := rc.Spawn("wsserver"+tag, func() {
+		wait := func(sub string, n int) bool {
+			simrt.WaitUntil("wsrv:"+sub, func() bool { return o.done || bytes.Count(out.Tap, []byte(sub)) >= n })
+			return bytes.Count(out.Tap, []byte(sub)) >= n
+		}
+		if !wait("<open ", 1) {
+			return
+		}
+		simrt.WaitUntil("wsrv:hdrend", func() bool { return o.done || bytes.HasSuffix(bytes.TrimSpace(out.Tap), []byte("/>")) })
+		tlsReq, tlsOpt := `<starttls xmlns='urn:ietf:params:xml:ns:xmpp-tls'><required/></starttls>`, `<starttls xmlns='urn:ietf:params:xml:ns:xmpp-tls'/>`
+		mech := `<mechanisms xmlns='urn:ietf:params:xml:ns:xmpp-sasl'><mechanism>PLAIN</mechanism></mechanisms>`
+		bindF := `<bind xmlns='urn:ietf:params:xml:ns:xmpp-bind'/>`
+		fl := map[string]string{"starttls-required": tlsReq, "starttls-optional": tlsOpt, "starttls-absent-sasl-offered": mech, "empty": "", "starttls-among-others": `<x xmlns='urn:verif:unknown'/>` + tlsOpt + mech,
+			"unknown-only": `<x xmlns='urn:verif:unknown'/>`, "bind-and-sasl-only": mech + bindF, "starttls-and-secure-only-voluntary": `<vol xmlns='urn:verif:secvol'/>` + tlsOpt}[c02Lists[plan.list]]
+		open := func(id string) string {
+			return fmt.Sprintf(`<open xmlns="urn:ietf:params:xml:ns:xmpp-framing" id='%s' from='%s' version='1.0'/>`, id, origin.Domain())
+		}
+		feat := func(inner string) string {
+			if inner == "" && plan.answer%2 == 0 {
+				return `<features xmlns="http://etherx.jabber.org/streams"/>`
+			}
+			return `<features xmlns="http://etherx.jabber.org/streams">` + inner + `</features>`
+		}
+		io.WriteString(sc, open("ws1")+feat(fl))
+		// whatever the client does next in clear text, play along
+		seen := len(out.Tap)
+		for step := 0; step < 8 && !o.done; step++ {
+			simrt.WaitUntil("wsrv:next", func() bool { return o.done || len(out.Tap) > seen })
+			if o.done {
+				return
+			}
+			tail := string(out.Tap[seen:])
+			seen = len(out.Tap)
+			switch {
+			case strings.Contains(tail, "<starttls"):
+				switch plan.answer % 5 {
+				case 0:
+					io.WriteString(sc, `<failure xmlns='urn:ietf:params:xml:ns:xmpp-tls'/>`)
+				case 1:
+					io.WriteString(sc, `<foo xmlns='urn:x'/>`)
+				case 2:
+					io.WriteString(sc, " \n ")
+				case 3:
+					return // silence
+				default:
+					sc.Out().CutNow()
+					sc.CloseWrite()
+					rc.Fire("cut")
+					return
+				}
+			case strings.Contains(tail, "<auth"):
+				io.WriteString(sc, `<success xmlns='urn:ietf:params:xml:ns:xmpp-sasl'/>`)
+			case strings.Contains(tail, "<open "):
+				io.WriteString(sc, open("ws2")+feat(bindF))
+			case strings.Contains(tail, "<iq"):
+				id := ""
+				if m := regexp.MustCompile(`id="([^"]*)"`).FindStringSubmatch(tail); m != nil {
+					id = m[1]
+				}
+				fmt.Fprintf(sc, `<iq xmlns='jabber:client' type='result' id='%s'><bind xmlns='urn:ietf:params:xml:ns:xmpp-bind'><jid>%s</jid></bind></iq>`, id, origin)
+			}
+		}
+	})
+	rc.S.Run(func() bool { return sut.Done() }, 60000, 30*time.Second)
+	if sess != nil {
+		o.state = stateOf(rc, sess)
+		o.handshake = sess.ConnectionState().HandshakeComplete
+	}
+	o.clearOut = append([]byte(nil), out.Tap...)
+	cancel()
+	cc.Close()
+	sc.Close()
+	rc.S.Run(func() bool { return sut.Done() && srv.Done() }, 20000, time.Minute)
+	return o
+}
+
 func runC02(rc *RC) {
 	ch := rc.Ch
 	if ch.Chance("workload", 1, 2) {
@@ -349,6 +451,27 @@ func runC02(rc *RC) {
 		}
 		rc.Describe("session %d origin=%s list=%s answer=%s foreign-to=%v gateway=%v cancel=%d/%d plain=%v", i, origin, c02Lists[plan.list], c02Answers[plan.answer], plan.foreignTo, plan.gateway, plan.cancelMode, plan.cancelSteps, plan.plainT)
 		rc.CaseKey += fmt.Sprint(useNil, plan)
+		if ch.Chance("workload", 1, 5) {
+			// WebSocket framing: no TLS ever happens here, so every outcome has to be an error
+			rc.Fire("websocket-framing")
+			for k, tee := range []bool{false, true} {
+				o := c02SessionWS(rc, i, []string{"a", "b"}[k], origin, feats, plan, tee)
+				teeS := []string{"tee-off", "tee-on"}[k]
+				sig := "ws:" + c02Lists[plan.list] + "/" + fmt.Sprint(plan.answer%5) + "/" + teeS
+				rc.Describe("  ws %s: err=%v state=%v", teeS, o.err, o.state)
+				rc.Evals["C02.c1"]++
+				if !c02ClearReWS.Match(o.clearOut) {
+					rc.Failf("C02.c1", "cleartext-beyond-starttls:"+sig, "client wrote in clear text (WebSocket framing): %q", clip(string(o.clearOut), 400))
+				}
+				rc.Evals["C02.c2"]++
+				if !o.done {
+					rc.Failf("C02.c2", "client-hangs:"+sig, "client did not return within its context's deadline; stuck %v", rc.S.Stuck())
+				} else if o.err == nil || o.state&xmpp.Ready != 0 {
+					rc.Failf("C02.c2", "ready-without-tls:"+sig, "client returned err=%v state=%v over WebSocket framing on a connection that was never secured", o.err, o.state)
+				}
+			}
+			continue
+		}
 		off := c02Session(rc, i, "a", origin, negOff, plan, false, cert)
 		on := c02Session(rc, i, "b", origin, negOn, plan, true, cert)
 		for k, o := range []c02Outcome{off, on} {
